@@ -55,6 +55,8 @@ fn alphabet(tier: Tier) -> Vec<&'static str> {
         "X EVALSHA 620cd258c2c9c88c9d10db67812ccf663d96bdc6 1 kc", "X EVALSHA 620cd258c2c9c88c9d10db67812ccf663d96bdc6 1 ka",
         "X SCRIPT EXISTS 620cd258c2c9c88c9d10db67812ccf663d96bdc6", "X SCRIPT LOAD return\\x20redis.call('GET',KEYS[1])", "X SCRIPT FLUSH",
         "FG ka", "FS ka f", "PG ka", "PS ka p", "BG ka kc", "BS ka 1 kc 2", "FG kc", "FS kc g",
+        // big pipelined batches that write the same keys several times (per-shard regrouping must keep their order)
+        "BSN 24 ka kc", "BSN 70 ka kb kc", "BSN 130 ka",
     ];
     if tier == Tier::Thorough {
         v.extend([
@@ -182,6 +184,14 @@ async fn apply(node: &mut Node<VerifTime>, clock: &VerifTime, op: &Argv) -> Stri
         }
         "BS" => {
             let ps: Vec<(Bytes, Bytes)> = op[1..].chunks(2).map(|c| (Bytes::from(c[0].clone()), Bytes::from(c[1].clone()))).collect();
+            fmtv(node.call(move |st| async move { st.fast_batch_set_pipeline(ps).await }).await)
+        }
+        "BSN" => {
+            // one pipelined batch of n SETs cycling through the named keys, the i-th SET writing v<i>: every key must
+            // end with the value of its LAST SET in the batch, on any number of shards
+            let n: usize = String::from_utf8_lossy(&op[1]).parse().unwrap();
+            let ks: Vec<Vec<u8>> = op[2..].to_vec();
+            let ps: Vec<(Bytes, Bytes)> = (0..n).map(|i| (Bytes::from(ks[i % ks.len()].clone()), Bytes::from(format!("v{i}").into_bytes()))).collect();
             fmtv(node.call(move |st| async move { st.fast_batch_set_pipeline(ps).await }).await)
         }
         other => panic!("unknown op tag {other}"),
